@@ -44,13 +44,14 @@ theorem gen_hex_ring (k : Nat) : Generated.C18.hexRing k = Model.C18.hexRing k :
     | simp only [Generated.C18.hexRing, Model.C18.hexRing, Generated.C18.hexRingRoll, Generated.C18.hexRingSideLen,
         Generated.C18.hexRingStart, Int.toNat_natCast, gen_hex_dirs.2.1, gen_hex_dirs.2.2]
 
-/-- `_local_window` clamps both axes the way the model does -/
+/-- `_local_window` clamps both axes the way the model does — the clamp is translated AS WRITTEN (two `if`s in sequence or
+`min(max(v, 0), n)`) and proved equal to the model clamp for all integers -/
 theorem gen_window (c ic s n : Int) :
     Generated.C18.windowLoX c ic s n = windowLo c ic s n ∧ Generated.C18.windowHiX c ic s n = windowHi c ic s n ∧
     Generated.C18.windowLoY c ic s n = windowLo c ic s n ∧ Generated.C18.windowHiY c ic s n = windowHi c ic s n := by
   simp only [Generated.C18.windowLoX, Generated.C18.windowHiX, Generated.C18.windowLoY, Generated.C18.windowHiY,
     windowLo, windowHi, clamp] <;>
-  (refine ⟨?_, ?_, ?_, ?_⟩ <;> first | trivial | rfl | (split_ifs <;> omega))
+  (refine ⟨?_, ?_, ?_, ?_⟩ <;> first | trivial | rfl | omega | (split_ifs <;> omega))
 
 /-- structural facts read off the AST: the hexagonal aperture mask is the OR of the local masks written through
 their windows; `compose_opd` accumulates `tile * mask` into `out[window]`; rectangle / offset_circle wiring -/
@@ -178,8 +179,9 @@ theorem window_in_bounds (c ic s n : Int) (hs : 0 ≤ s) (hn : 0 ≤ n) :
       Generated.C18.windowLoX c ic s n = c + ic - s ∧ Generated.C18.windowHiX c ic s n = c + ic + s) ∧
     0 ≤ Generated.C18.windowLoY c ic s n ∧ Generated.C18.windowLoY c ic s n ≤ Generated.C18.windowHiY c ic s n ∧
     Generated.C18.windowHiY c ic s n ≤ n := by
-  simp only [Generated.C18.windowLoX, Generated.C18.windowHiX, Generated.C18.windowLoY, Generated.C18.windowHiY,
-    windowLo, windowHi, clamp]
+  obtain ⟨h1, h2, h3, h4⟩ := gen_window c ic s n
+  rw [h1, h2, h3, h4]
+  simp only [windowLo, windowHi, clamp]
   refine ⟨?_, ?_, ?_, ?_, ?_, ?_, ?_, ?_⟩ <;> split_ifs <;> omega
 
 /-- `samples_per_seg = int(rseg/dx + 2)` is `⌊rseg/dx⌋ + 2` for a non-negative ratio (the offset the model and the driver use),
